@@ -419,6 +419,32 @@ theorem plugin_message_decodes (p : Int) (sb : Bool) (m : PluginMessage) (ok : o
       rw [vString_rt 20 _ _ (by omega) hch]; simp only [seq_ok]
       rw [← List.append_nil (writeBytes17 m.data), vVarShortArray_rt _ _ hdata]; rfl
 
+/-- history form: the same packet object encoded for any sequence of protocols (a broadcast to
+    connections of mixed versions, in any order) — every single encoding is what `encPluginMessage`
+    yields for the ORIGINAL packet, hence decodes to the intended value of the original channel -/
+theorem plugin_message_history (m : PluginMessage) (ps : List Int) :
+    encHistory encPluginStep m ps = ps.map (fun p => encPluginMessage p m) := by
+  induction ps with
+  | nil => rfl
+  | cons p t ih => simp only [encHistory, encPluginStep, List.map_cons, ih]
+
+theorem plugin_message_history_decodes (m : PluginMessage) (steps : List (Int × Bool))
+    (ok : ∀ st ∈ steps, okPluginMessage st.1 st.2 m) :
+    encHistory encPluginStep m (steps.map (·.1)) = steps.map (fun st => encPluginMessage st.1 m) ∧
+    ∀ st ∈ steps, ∃ bs, encPluginMessage st.1 m = some bs ∧
+      decPluginMessage st.1 st.2 bs = .ok (meantPluginMessage st.1 m) := by
+  refine ⟨?_, fun st hst => plugin_message_decodes st.1 st.2 m (ok st hst)⟩
+  rw [plugin_message_history, List.map_map]
+  rfl
+
+/-- an `Encode` that stores the transformed name back into the object breaks the second step:
+    `FML|HS` encoded for 1.21 and then for 1.12.2 reaches the old client as `legacy:fmlhs` -/
+theorem plugin_message_rewriting_fails :
+    ∃ bs, (encHistory encPluginStepRewriting ⟨asc "FML|HS", []⟩ [767, 340]).getD 1 none = some bs ∧
+      decPluginMessage 340 false bs = .ok ⟨asc "legacy:fmlhs", []⟩ ∧
+      meantPluginMessage 340 ⟨asc "FML|HS", []⟩ = ⟨asc "FML|HS", []⟩ :=
+  ⟨_, rfl, rfl, rfl⟩
+
 /-- the mapped channel name is Velocity's mapping -/
 theorem plugin_channel_mapping (name : Bytes) : transformChannel name = legacyToModern name :=
   transformChannel_eq name
